@@ -67,10 +67,7 @@ MCGetLazy       == G /\ \E p \in Pick(Pos) : GetLazy(p) /\ Log(H("GetLazy", p, p
 MCRemove        == G /\ \E p \in Pick(Pos) : Remove(p) /\ Log(H("Remove", p, p, 0, FALSE))
 MCCopyValue     == G /\ \E p \in Pick(Pos), q \in Pick(Pos) : CopyValue(p, q) /\ Log(H("CopyValue", p, q, 0, FALSE))
 MCCopyCell      == G /\ \E p \in Pick(Pos), q \in Pick(Pos) : CopyCell(p, q) /\ Log(H("CopyCell", p, q, 0, FALSE))
-(* (long random histories: no save while a value is lazy - with the open finding X02-KF6 the real sheet and the
-   intended one then differ in which cells exist, and later copy_cell steps would leave their contract; lazy values
-   across a save are covered by the exhaustive replays and by the generated histories of checks/x02.py) *)
-MCSaveLoad      == G /\ (Wide => \A p \in Pos : cells[p].v.k # "lazy") /\ SaveLoad /\ Log(H("SaveLoad", 0, 0, 0, FALSE))
+MCSaveLoad      == G /\ SaveLoad /\ Log(H("SaveLoad", 0, 0, 0, FALSE))
 
 MCNext == \/ MCTouch \/ MCSetValue \/ MCSetString \/ MCSetNumber \/ MCSetBool \/ MCSetRich \/ MCSetBlank
           \/ MCSetFormula \/ MCRemoveFormula \/ MCSetResult \/ MCSetError \/ MCSetLazy \/ MCGetLazy
